@@ -605,6 +605,45 @@ pub fn c11_fault_programs() -> Vec<Arc<Prog>> {
         p("failing-scan||flush", big, l0.clone(), vec![vec![IterScan, Get(1)], vec![Flush, Put(1, 7, 8)]], (class::READ, ".rdb")),
         p("failing-open-of-table||compact", big, l0, vec![vec![Get(1), SnapRead(vec![0, 1])], vec![Compact(None, None)]], (class::OPEN, ".rdb")),
     ]
+    .into_iter()
+    .chain(c11_notfound_programs())
+    .collect()
+}
+
+/// The same without a fault: readers whose answer is "not found" (a deleted key whose tombstone is
+/// in a table, a key that was never written) while new versions are installed; afterwards
+/// everything is overwritten and compacted and the directory must hold exactly the needed files
+/// (a reader that keeps a version pinned for ever keeps its tables on disk).
+pub fn c11_notfound_programs() -> Vec<Arc<Prog>> {
+    let p = |name: &str, cfg: Cfg, setup: Vec<TOp>, threads: Vec<Vec<TOp>>| {
+        Arc::new(Prog {
+            name: name.to_string(),
+            cfg,
+            keys: vec![b"a".to_vec(), b"b".to_vec(), b"c".to_vec()],
+            setup,
+            threads,
+            strict_unlink: true,
+            fs_switch: false,
+            recover_at_removals: false,
+            recover_at_meta: false,
+            recover_at_all_writes: false,
+            fault: None,
+            fault_thread: None,
+            final_directory: true,
+            fault_budget: None,
+            fault_skip: 0,
+            pre_wal_puts: 0,
+            judge_under_fault: false,
+        })
+    };
+    let big = Cfg::new(4 << 20, 300, 16, true);
+    // a: value in a table; b: tombstone in a table above an older value; c: never written
+    let setup = vec![Put(0, 1, 8), Put(1, 2, 8), Flush, Del(1), Flush, Put(0, 3, 8)];
+    vec![
+        p("notfound-get||flush", big, setup.clone(), vec![vec![Get(1), Get(2)], vec![Flush]]),
+        p("notfound-get||compact", big, setup.clone(), vec![vec![Get(2), Get(1)], vec![Compact(None, None)]]),
+        p("notfound-get||put+flush+compact", big, setup, vec![vec![Get(1)], vec![Put(1, 4, 8), Flush, Compact(None, None)]]),
+    ]
 }
 
 /// C02 under concurrency: the same programs, with a crash image recovered after every manifest
